@@ -57,6 +57,7 @@ package bcl
 //@   ensures [C09,C14] bool_value: (result1 == nil && rbyte(old(g.rp)) == byte(typeBOOL)) ==> result0 == VBool(rbyte(old(g.rp) + 1) != 0) && g.rp == old(g.rp) + 2
 //@   ensures [C09,C14] nil_value: (result1 == nil && rbyte(old(g.rp)) == byte(typeNIL)) ==> result0 == VNil() && g.rp == old(g.rp) + 1
 //@   ensures [C13,C14] known_type_or_error: result1 == nil ==> rbyte(old(g.rp)) <= byte(typeBOOL)
+//@   ensures [C09,C06] decoded_values_are_storable: result1 == nil ==> storable(result0)
 //@   ensures position: g.rp >= old(g.rp)
 //
 // Dump: every section is written in the documented order with the documented
@@ -65,7 +66,6 @@ package bcl
 //@   ghost dumps = g.dumps + 1
 //@   requires complete: prog.linePos != nil
 //@   requires storable_constants: forall i int :: 0 <= i && i < len(prog.constants) ==> storable(prog.constants[i])
-//@   requires nonneg_positions: (forall i int :: 0 <= i && i < len(prog.positions) ==> prog.positions[i] >= 0) && (forall i int :: 0 <= i && i < len(prog.linePos.lfs) ==> prog.linePos.lfs[i] >= 0)
 //@   assert [C14] header: at Write#1: len($p) == 4 && $p[0] == 252 && $p[1] == 108 && $p[2] == 1 && $p[3] == 1
 //@   assert [C14] name_length: at Write#2: len($p) == uvlen(uint64(len(prog.name))) && (forall i int :: 0 <= i && i < len($p) ==> $p[i] == uvbyte(uint64(len(prog.name)), i))
 //@   assert [C14] name_bytes: at Write#3: len($p) == len(prog.name) && (forall i int :: 0 <= i && i < len($p) ==> $p[i] == prog.name[i])
@@ -86,12 +86,12 @@ package bcl
 //@   requires fresh_stream: g.rp == 0 && !g.short && g.rlen >= 0
 //@   ensures [C13] no_short_read_when_ok: err == nil ==> !g.short
 //@   ensures [C13,C14] header_checked: err == nil ==> g.rlen >= 4 && rbyte(0) == 252 && rbyte(1) == 108 && rbyte(2) == 1 && rbyte(3) <= 1
-//@   ensures [C09] complete_program: err == nil ==> prog.linePos != nil
+//@   ensures [C09,C06] complete_program: err == nil ==> dumpable(prog)
 //@   assert [C09,C13] magic_missing_only_if_stream_short: at Errorf#1: g.short
 //@   assert [C09,C13] version_missing_only_if_stream_short: at Errorf#3: g.short
 //@   assert [C09,C13] name_short_only_if_stream_short: at Errorf#7: g.short
 //@   assert [C09,C13] code_short_only_if_stream_short: at Errorf#9: g.short
 //@   assert [C09,C13] code_short_only_if_stream_short2: at Errorf#10: g.short
-//@   loop 1 invariant 0 <= i && !g.short && g.rp >= 4 && int(m) == len(prog.constants) && m <= 2147483647
-//@   loop 2 invariant 0 <= i && !g.short && g.rp >= 4 && int(m) == len(prog.positions) && m <= 2147483647
-//@   loop 3 invariant 0 <= i && !g.short && g.rp >= 4 && prog.linePos != nil && int(m) == len(prog.linePos.lfs) && m <= 2147483647
+//@   loop 1 invariant 0 <= i && !g.short && g.rp >= 4 && int(m) == len(prog.constants) && m <= 2147483647 && (forall k int :: 0 <= k && k < i ==> storable(prog.constants[k]))
+//@   loop 2 invariant 0 <= i && !g.short && g.rp >= 4 && int(m) == len(prog.positions) && m <= 2147483647 && (forall k int :: 0 <= k && k < len(prog.constants) ==> storable(prog.constants[k]))
+//@   loop 3 invariant 0 <= i && !g.short && g.rp >= 4 && prog.linePos != nil && int(m) == len(prog.linePos.lfs) && m <= 2147483647 && (forall k int :: 0 <= k && k < len(prog.constants) ==> storable(prog.constants[k]))
